@@ -436,12 +436,51 @@ def dispatch_cases(ctx):
             ctx.violate(f"dispatcher refuses a supported combination ({got})", cj, {"kind": "dispatch", "got": got})
 
 
+def weights_option_cases(ctx):
+    """the optional timetrace weights as the imaging entry points take them: `contact_tfm(timetrace_weights=...)` with
+    "default", `None` (= all ones, documented), an explicit array; the image is the weighted definition with exactly those
+    weights.  Reference: `delay_and_sum` with a FocalLaw carrying the weights (itself tied to the definition above)."""
+    import arim
+    import arim.geometry as g
+    from arim import ut
+    from arim.im import das, tfm
+
+    rng = ctx.rng
+    for it in range(6 * ctx.scale):
+        numel = int(rng.integers(2, 6))
+        probe = arim.Probe.make_matrix_probe(numel, 1e-3, 1, np.nan, 5e6)
+        kind = ["hmc", "fmc", "rand"][it % 3]
+        tx, rx = fixtures.pairs(rng, numel, kind)
+        ns, dt, v = 64, 5e-8, 6000.0
+        tt = rng.integers(-9, 10, size=(len(tx), ns)).astype(float)
+        fr = fixtures.make_frame(tt, 0.0, dt, tx, rx, probe, None)
+        grid = g.Grid(-1e-3, 1e-3, 0.0, 0.0, 2e-3, 5e-3, 1e-3)
+        lookup = g.distance_pairwise(grid.to_1d_points(), probe.locations) / v
+        dflt = ut.default_timetrace_weights(tx, rx)
+        expl = rng.choice([0.5, 1.0, 2.0, 3.0], size=len(tx))
+        options = [("'default'", "default", dflt), ("None", None, None)]
+        for label, opt, w in options:
+            cj = {"op": "contact_tfm_weights", "capture": kind, "numel": numel, "timetrace_weights": label, "tx": tx.tolist(), "rx": rx.tolist()}
+            ctx.case(("cw", it, label), True)
+            ctx.count("contact_tfm_weights:" + label)
+            try:
+                got = tfm.contact_tfm(fr, grid, v, timetrace_weights=opt, interpolation="nearest", fillvalue=0.0).res.ravel()
+            except Exception as e:
+                ctx.violate(f"contact_tfm(timetrace_weights={label}) raised {type(e).__name__}: {str(e)[:80]}", cj, {"kind": "weights_option"})
+                continue
+            want = das.delay_and_sum(fr, fixtures.make_focal_law(lookup, lookup, None, None, w), interpolation="nearest", fillvalue=0.0)
+            if not np.allclose(got, want, rtol=1e-12, atol=1e-12):
+                ctx.violate(f"contact_tfm(timetrace_weights={label}) on a {kind} frame is not the image weighted by {'the default weights' if w is not None else 'ones'} "
+                            f"(max difference {np.abs(got - want).max():.3g})", cj, {"kind": "weights_option"})
+
+
 def run(ctx):
     rng = ctx.rng
     ctx.rule = ("frames FMC/HMC/random subsets of 1-5 elements, integer samples (float32/64, complex64/128), lookup locations on quarter samples from 1.5 samples "
                 "before the window to 1.5 after (boundary stream at -1, -3/4, -1/2, -1/4, 0, .., n-1, n), optional amplitudes (real/complex), weights, fill 0/NaN/1.5/-2, "
                 "preallocated result; Lanczos on generic times; median/Huber on random complex data; the whole dispatcher table; "
                 "distinct = distinct request; non-trivial = at least one in-window and the interpolation is exercised")
+    weights_option_cases(ctx)
     n = 120 * ctx.scale
     cases = [gen_case(rng, boundary=(k % 3 == 0)) for k in range(n)]
     l0 = [line(c, 0.0) for c in cases]
